@@ -24,14 +24,26 @@ Definition C05_roundtrip_full_statement : Prop :=
    type objects are met as memoised nodes); slices with None/int/bool/str bounds; function (ufunc) and type names;
    attrgetter / itemgetter (operator helpers whose __reduce__ tuple the constructor accepts); numpy arrays and numpy
    scalars (opaque token in an <id>.npy member), scipy sparse matrices (<id>.npz), dtypes (through the carrier array
-   the dumper creates), masked arrays, RandomState and Generator (through their state dicts), functools.partial.
+   the dumper creates), masked arrays, RandomState and Generator (through their state dicts), functools.partial;
+   bytes / bytearray and their subclasses whose class name resolves at load (the content is an opaque token in a member
+   u<n>.bin named by the dumper's uuid counter, NOT by the object id); rank-1 object-dtype arrays (exact numpy.ndarray,
+   shape [len(cells)], any length incl. 0) whose cells are ANY values of the fragment, shared or not: the cells travel as
+   the content of the list tolist() creates, the shape as a fresh tuple the dumper creates around len(obj) -- one of
+   CPython's cached small ints when len(obj) <= 256 (then an object of the value's universe `objs`, possibly met before as
+   a cell or elsewhere in the value: a reference), a fresh int object otherwise (CodecShareFacts.shape_node, objarr_Q).
    A shared array is written once and referenced from every occurrence (member lookup by name: ShowFacts.show_Z_inj).
+   A shared bytes object is written once PER OCCURRENCE (u<n>.bin, u<n'>.bin, ... with the same content: that is what
+   bytes_get_state does); the loader builds the node of the first occurrence from whichever of these names the file
+   table yields for the id and returns that same object for the later occurrences through the __id__ memo, so the loaded
+   value is v with one bytes object, not several (CodecShareFacts.bytes_Q, FTd_one: all names recorded for one id name
+   the same content; fresh names: CodecMemberFacts.uuid_inj / npy_uuid / npz_uuid).
    Sharing is arbitrary: any sub-object (and CPython's cached small ints, type objects, ...) may occur any number of
    times (a DAG); the only requirement is that one label denotes one object (objs_wf: decidable).  The state get_state
    emits is loaded by get_tree + construct to exactly v, identity labels included -- the same sharing.
    c05_guard = fragb (the fragment) && objs_wf (labels) && need v <= default_fuel (nesting depth below the fuel).
-   Still missing from the full statement: bytes / bytearray (uuid-named members), object arrays, scipy sparse
-   *arrays* (object path).  The statement is about the entry points: dumps_model (incl. the root
+   Still missing from the full statement: object-dtype arrays of rank >= 2 (nested tolist() lists and the
+   np.array(..., dtype="O") rebuild; with sequence cells that is finding D10) and of rank 0, scipy sparse *arrays*
+   (object path).  The statement is about the entry points: dumps_model (incl. the root
    fields protocol/_skops_version of _save) does not raise and loads_model returns v.  The missing kinds are covered by the per-case evaluation `c05_case_same`
    and by the correspondence with the implementation (harness/props/c05.py). *)
 Theorem C05_roundtrip_partial :
@@ -65,12 +77,50 @@ Definition wshared : pval :=
              PDict 26 (s "collections") (s "OrderedDict") [(kstr "b", d); (kstr "c", PSlice 27 (BScalar (SInt 1)) (BScalar SNone) (BScalar (SInt 2)))];
              PDefDict 28 (s "collections") (s "defaultdict") (PType 902 (s "builtins") (s "int")) [(kint 1, sh); (kstr "k", PFunc 29 (s "numpy") (s "sqrt"))];
              PSeq QSet 30 (s "builtins") (s "set") false [pint 7; pstr_ 31 "s"]; wfrag].
+(* bytes and bytearray: the bytes object `bs` occurs three times (twice in a list, once as a dict value) and is written to
+   three members u0.bin, u2.bin, u3.bin; the bytearray (twice: u1.bin, u5.bin) and a second bytes object with the same content but another
+   identity (u4.bin) stay distinct objects; an array shares the archive with them *)
+Definition wbytes : pval :=
+  let bs := PBytes 40 false (s "builtins") (s "bytes") (s "6162") in
+  let ba := PBytes 41 true (s "builtins") (s "bytearray") (s "0001ff") in
+  ptuple 42 [plist 43 [bs; ba; bs]; pdict 44 [(kstr "k", bs); (kstr "same-content", PBytes 45 false (s "builtins") (s "bytes") (s "6162"))];
+             PArr 46 false (s "numpy") (s "ndarray") (s "tok-f8-2x3"); ba; wshared].
+(* rank-1 object arrays: three cells (a list that also occurs outside the array, the shared bytes object, the cached int 3
+   that is also len(obj)); an empty object array; an object array inside an object array *)
+Definition wobjarr : pval :=
+  let sh := plist 50 [pint 1; pstr_ 51 "x"] in
+  let bs := PBytes 52 false (s "builtins") (s "bytes") (s "6162") in
+  let oa := PObjArr 53 (s "numpy") (s "ndarray") [3%Z] [sh; bs; pint 3] in
+  ptuple 54 [oa; sh; bs; PObjArr 55 (s "numpy") (s "ndarray") [0%Z] [];
+             PObjArr 56 (s "numpy") (s "ndarray") [2%Z] [oa; pdict 57 [(kstr "k", oa)]]; pint 2].
 Definition wC (a : archive) : cenv := cenv_of Snapshot.registry Snapshot.current wf a.
 
 (* non-vacuity: the hypotheses of C05_roundtrip_partial hold of a nested value, and the conclusion computes *)
 Example C05_nonvacuous :
   c05_guard wf (wd Snapshot.current) wbase wshared = true /\ supported wf wshared = true /\ facts_sane wf = true
   /\ roundtrip Snapshot.registry Snapshot.current wf (wd Snapshot.current) wbase wshared = Ok wshared.
+Proof. repeat split; vm_compute; reflexivity. Qed.
+
+(* non-vacuity for bytes / bytearray: the guard holds of a value with a shared bytes object and a shared bytearray; the dump
+   writes one member per occurrence (six u<n>.bin members for three objects: bs thrice, ba twice, the equal-content bytes once) and the round trip returns the value itself *)
+Example C05_nonvacuous_bytes :
+  c05_guard wf (wd Snapshot.current) wbase wbytes = true /\ supported wf wbytes = true
+  /\ roundtrip Snapshot.registry Snapshot.current wf (wd Snapshot.current) wbase wbytes = Ok wbytes
+  /\ (do a <- dumps_model (wd Snapshot.current) wbase wbytes; Ok (map fst (a_members a)))
+     = Ok [s "u0.bin"; s "u1.bin"; s "u2.bin"; s "u3.bin"; s "u4.bin"; s "46.npy"; s "u5.bin"].
+Proof. repeat split; vm_compute; reflexivity. Qed.
+
+(* non-vacuity for rank-1 object arrays (cells of any kind of the fragment, shared with the rest of the value) *)
+Example C05_nonvacuous_objarr :
+  c05_guard wf (wd Snapshot.current) wbase wobjarr = true
+  /\ roundtrip Snapshot.registry Snapshot.current wf (wd Snapshot.current) wbase wobjarr = Ok wobjarr.
+Proof. repeat split; vm_compute; reflexivity. Qed.
+
+(* an object array with 257 cells: len(obj) is not a cached small int, the shape tuple holds a fresh int object *)
+Example C05_nonvacuous_objarr_long :
+  let v := PObjArr 60 (s "numpy") (s "ndarray") [257%Z] (repeat (pint 1) 256 ++ [pstr_ 61 "last"]) in
+  c05_guard wf (wd Snapshot.current) wbase v = true
+  /\ roundtrip Snapshot.registry Snapshot.current wf (wd Snapshot.current) wbase v = Ok v.
 Proof. repeat split; vm_compute; reflexivity. Qed.
 
 (* the complete pipeline dumps -> schema.json -> get_tree -> construct on a value of the full grammar
